@@ -54,7 +54,7 @@ def crosscheck(con, k, seed, repo_root, verif_root):
     out = {'runs': 0, 'skipped': 0, 'disagreements': []}
     if getattr(con, 'trusted', False) and not isinstance(con, C.Contract):
         return out
-    if not isinstance(con, C.Contract):
+    if not isinstance(con, C.Contract) or con.region is not None:
         return out
     rng = random.Random((seed << 8) ^ (hash(con.name) & 0xffff))
     cfg = C.make_config(repo_root, verif_root)
